@@ -267,4 +267,79 @@ theorem accurate_round {F p eb} (lay : Layout F p eb) (mant errors errLo : Nat) 
       · rw [hAWv]; omega
       · intro hk0; rw [hfpT, hTWv]; exact hAge hk0
 
+/-- `error_is_accurate` in the deep-underflow case `1 − exp > 64` -/
+theorem errorIsAccurate_deep {F p eb} (lay : Layout F p eb) (mant errors : Nat) (power2 : Int)
+    (hp2 : -power2 + 1 > 64) :
+    errorIsAccurate F errors ⟨mant, power2⟩ = decide (mant + errors < 2 ^ 64) := by
+  have hp := lay.hp; have hp64 := lay.hp64; have heb := lay.heb
+  unfold errorIsAccurate
+  rw [lay.ms]
+  have e : (64 : Int) - ((p - 1 : Nat) : Int) - 1 = 64 - (p : Int) := by omega
+  simp only [e]
+  rw [if_pos (show power2 ≤ -(64 - (p : Int)) by omega), if_pos (show (1 - power2 : Int) > 64 by omega)]
+
+/-- a value below `2^65` units at `α − β ≥ 66` (or below `2^64` at `= 65`) is less than half the least subnormal -/
+theorem tiny_of_units {f : Fmt} (hf : WF f) {num den : Nat} (hd : 0 < den) (α β B g : Nat)
+    (hY : num * 2 ^ L f * 2 ^ α < B * (den * 2 ^ β)) (hB : B ≤ 2 ^ g) (hg : β + g + 1 ≤ α) :
+    roundNE f num den = 0 := by
+  apply roundNE_tiny hf (Nat.ne_of_gt hd)
+  have h1 : B * (den * 2 ^ β) ≤ 2 ^ g * (den * 2 ^ β) := Nat.mul_le_mul_right _ hB
+  have h2 : 2 ^ g * (den * 2 ^ β) = den * 2 ^ (β + g) := by rw [Nat.pow_add]; ring
+  have h3 : 2 ^ α = 2 ^ (β + g + 1) * 2 ^ (α - (β + g + 1)) := by
+    rw [← Nat.pow_add]; congr 1; omega
+  have h4 : 1 ≤ 2 ^ (α - (β + g + 1)) := Nat.two_pow_pos _
+  have h5 : num * 2 ^ L f * 2 ^ (β + g + 1) ≤ num * 2 ^ L f * 2 ^ α := by
+    rw [h3, ← Nat.mul_assoc]; exact Nat.le_mul_of_pos_right _ h4
+  have h6 : num * 2 ^ L f * 2 ^ (β + g + 1) = 2 * (num * 2 ^ L f) * 2 ^ (β + g) := by
+    rw [Nat.pow_succ]; ring
+  have h7 : 2 * (num * 2 ^ L f) * 2 ^ (β + g) < den * 2 ^ (β + g) := by omega
+  exact Nat.lt_of_mul_lt_mul_right h7
+
+/-- **second half of `bellerophon` is sound**: if the true value is within `(mant − errLo, mant + errors)`
+units of the scaled, normalised extended float, a valid non-lossy answer is `roundNE` of the true value. -/
+theorem bellFinish_sound {F p eb} (lay : Layout F p eb) (mant errors errLo : Nat) (power2 : Int)
+    (num den α β : Nat) (hm1 : 2 ^ 63 ≤ mant) (hm2 : mant < 2 ^ 64) (he : errors < 2 ^ 32)
+    (hpp : 2 - (2 ^ 40 : Int) ≤ power2) (hpu : power2 < 32768) (hd : 0 < den)
+    (hαβ : (β : Int) - α = power2 - 1)
+    (hlo : mant * (den * 2 ^ β) < num * 2 ^ L F.fmt * 2 ^ α + errLo * (den * 2 ^ β))
+    (hhi : num * 2 ^ L F.fmt * 2 ^ α < (mant + errors) * (den * 2 ^ β))
+    (hel : errLo ≤ errors) (hel4 : 4 * errLo ≤ 2 ^ (64 - p)) (he1 : 1 ≤ errors)
+    {r : ExtendedFloat80} (h : bellFinish F ⟨mant, power2⟩ errors false = .ok r) (hv : 0 ≤ r.exp) :
+    extendedToFloat F r = roundNE F.fmt num den := by
+  have hf := lay.wf
+  unfold bellFinish litZeroShift at h
+  simp only [] at h
+  have hB65 : mant + errors ≤ 2 ^ 65 := by
+    have : (2 : Nat) ^ 65 = 2 ^ 64 + 2 ^ 64 := by decide
+    have : (2 : Nat) ^ 32 ≤ 2 ^ 64 := by decide
+    omega
+  by_cases h1 : -power2 + 1 > 65
+  · rw [if_pos h1] at h
+    injection h with h; subst h
+    rw [ext_zero lay]
+    exact (tiny_of_units hf hd α β (mant + errors) 65 hhi hB65 (by omega)).symm
+  · rw [if_neg h1] at h
+    by_cases hacc : errorIsAccurate F errors ⟨mant, power2⟩ = true
+    · have hc : ¬ ((!false && !errorIsAccurate F errors ⟨mant, power2⟩) = true) := by simp [hacc]
+      rw [if_neg hc] at h
+      by_cases h2 : -power2 + 1 = 65
+      · rw [if_pos h2] at h
+        injection h with h; subst h
+        rw [ext_zero lay]
+        rw [errorIsAccurate_deep lay mant errors power2 (by omega)] at hacc
+        have hB64 : mant + errors ≤ 2 ^ 64 := by
+          have := of_decide_eq_true hacc; omega
+        exact (tiny_of_units hf hd α β (mant + errors) 64 hhi hB64 (by omega)).symm
+      · rw [if_neg h2] at h
+        injection h with h; subst h
+        exact accurate_round lay mant errors errLo power2 num den α β hm1 hm2 he (by omega) hpp hd hαβ hlo hhi
+          hel hel4 he1 hacc
+    · have hc : ((!false && !errorIsAccurate F errors ⟨mant, power2⟩) = true) := by simp [hacc]
+      rw [if_pos hc] at h
+      injection h with h; subst h
+      exfalso
+      have : invalidFp = -32768 := rfl
+      simp only [] at hv
+      omega
+
 end LexVerif.Proof.Bell
